@@ -506,7 +506,7 @@ def run_nofiles(case, workdir):
             if nf == "sd":
                 o = _observe(case, params, names, csvp, None, outcome, log, notes)
                 # _observe's loads went through both load functions: without a state directory they leave the model alone
-                if any(l[1] not in (None, -7) or l[2] not in (None, -7) for l in o["loads"]):
+                if any(l[1] != -7 or l[2] != -7 for l in o["loads"]):
                     notes.append("loading without a state directory changed the model / optimizer: %r" % (o["loads"],))
                 c = _controller(params, csvp, None)
                 for e in range(0, o["last"] + 2):
@@ -724,6 +724,29 @@ def model_term(case, out):
 
 IMPORTS_SRC = "From PV Require Import C16.Model C16.SrcRun.\n"
 
+# Model.check without the per-call traces: the observable state (outcome, history, last/best, what every epoch loads,
+# directory now and after each completed update) of the implementation is the one PV.C16.Model.run predicts
+IMPORTS_STATE = IMPORTS + """
+Definition vstate_log_eqb (a b : logent) : bool :=
+  match snd a, snd b with
+  | None, None => true
+  | Some (l1, n1), Some (l2, n2) => andb (set_eqb l1 l2) (Nat.eqb n1 n2)
+  | _, _ => false
+  end.
+Definition vstate_eqb (a b : obs) : bool :=
+  andb (outcome_eqb (o_outcome a) (o_outcome b)) (andb (list_eqb row_eqb (o_hist a) (o_hist b))
+  (andb (Nat.eqb (o_last a) (o_last b)) (andb (Nat.eqb (o_best a) (o_best b)) (andb (list_eqb load_eqb (o_loads a) (o_loads b))
+  (andb (set_eqb (o_ckpts a) (o_ckpts b)) (andb (Nat.eqb (o_ntmp a) (o_ntmp b)) (list_eqb vstate_log_eqb (o_log a) (o_log b)))))))).
+Definition vstate_check (P : params) (metrics : list (Z * Z)) (ros : list (list path)) (crashes : list nat) (impl : list obs) : bool :=
+  list_eqb vstate_eqb (run P metrics ros crashes) impl.
+"""
+
+
+def state_term(case, out):
+    if "error" in out or relation_only(case) or any(o["outcome"] == "Raised-after-calls" for o in out["obs"]):
+        return "false"
+    return "vstate_check %s %s" % (model_args(case, out), cl([t_obs(o) for o in out["obs"]]))
+
 
 def src_term(case, out):
     """bool: the regenerated source terms (PV.Gen.C16Src: get_last_epoch, get_best_epoch and the two file-logic blocks of
@@ -887,10 +910,11 @@ def signature_fn(entry, rec):
     sig, case, out = entry["signature"], rec["case"], rec["impl"]
     if relation_only(case):
         return False    # those streams are built so that no known finding shows
-    if rec.get("model_agrees") is not True:
+    if rec.get("state_agrees") is not True:
         # every known finding is a behaviour of the unchanged code that PV.C16.Model reproduces observation by
-        # observation (and proves: Witness.v).  Observations the model does not predict are something else, whatever
-        # clauses they fail and whatever the crash points look like.
+        # observation (and proves: Witness.v).  A state (history, last/best, loads, directory listings) the model does
+        # not predict is something else, whatever clauses it fails and whatever the crash points look like.  (The
+        # traces of calls are left out: a change of the calls alone is the model-mismatch report's business.)
         return False
     failing = set(rec["failing_parts"])
     if not failing or not failing <= set(sig["failing_parts_subset_of"]):
@@ -1002,7 +1026,7 @@ def gen_cases(chk):
                 # that loses the title is then not the one before
                 v = rng.randint(40, 60) if lo is None else (lo - rng.randint(1, 3) if rng.random() < 0.35 else lo + rng.randint(0, 8))
             else:
-                v = rng.randint(1, 40)
+                v = rng.randint(-6, 40) or 1      # negative metrics are legal; 0 is left out (no relative 1e-8 jitter around it)
             lo = v if lo is None else min(lo, v)
             vals.append(v)
         return vals
@@ -1178,6 +1202,17 @@ def gen_cases(chk):
     return cases
 
 
+def _dethrones(case):
+    """some epoch e becomes the best one while the best so far is neither missing nor epoch e-1"""
+    col, best = (0 if case["bt"] else 1), None
+    for e, m in enumerate(case["mets"], 1):
+        if best is None or m[col] < best[0]:
+            if best is not None and best[1] != e - 1:
+                return True
+            best = (m[col], e)
+    return False
+
+
 def nontrivial(case, out):
     """at least one crash point strictly inside an update (some but not all of its calls made)"""
     if "error" in out:
@@ -1246,8 +1281,9 @@ def failing_parts(chk, case, out):
     return [PARTS[i] for i, ok in enumerate(res) if not ok]
 
 
-def make_record(chk, case, out, model_ok, parts, with_model=True):
+def make_record(chk, case, out, model_ok, parts, with_model=True, state_ok=None):
     rec = {"case": case, "impl": out, "failing_parts": parts, "model_agrees": model_ok,
+           "state_agrees": True if model_ok is True else state_ok,
            "spec_accepts_impl": not parts and not out.get("notes"),
            "correspondence": "corr:C16:TrainingStateController.update_for_epoch/load_model_and_optimizer_for_epoch",
            "theorems_at_stake": ["c16_crash_history_is_prefix", "c16_crash_then_continue_same_history",
@@ -1268,7 +1304,14 @@ def run(chk, cases=None):
                 "counted and the process killed (BaseException) instead of the k-th call, then restarted, for every crash point of the "
                 "list; after each death and at the end a fresh controller's history, last/best epoch, the result of loading every "
                 "recorded epoch, the directory listing, the trace of calls of every update and the listing after every completed update "
-                "are compared with PV.C16.Model.run, and judged by PV.C16.Spec.spec_parts. non-trivial = some crash strictly inside an update")
+                "are compared with PV.C16.Model.run, and judged by PV.C16.Spec.spec_parts. non-trivial = some crash strictly inside an update. "
+                "Stream 'driven': the same logical runs with the epoch passed explicitly (keyword/positional), update_cache()/add_entry "
+                "again before each update, two controllers taking turns, an observer kept alive over all restarts or without add_entry, "
+                "a watching controller loading after each completed update - all compared with the same Model.check. Judged by relations "
+                "with the plain run instead of the model: 'no-files' (state_dir and/or state_csv_path None), 'remove-fails' (os.remove "
+                "raising PermissionError inside the clean-up); judged by Spec.spec_part alone, no known finding admitted: "
+                "'delete-between-restarts' (delete_model_and_optimizer_for_epoch of every recorded epoch but last and best at each "
+                "restart, itself crash-injected). A known finding is accepted only for observations the model reproduces exactly")
     chk.assumptions += ["os.replace and the CSV append (open 'a' + writerow, flushed at close) are atomic; no torn writes",
                         "metrics lie on a grid where '{:.4e}' is exact; learning rates stay representable (C15's K4 is not re-tested here)",
                         "parameter values are one integer per update call, written to the model weight, the optimizer param group and the user entry 'tag'",
@@ -1303,6 +1346,8 @@ def run(chk, cases=None):
         chk.count("best_is_train=%s" % bool(c["bt"]))
         chk.count("num_epochs=" + ("unset" if not c.get("ctl", {}).get("num_epochs") else "1" if c["ctl"]["num_epochs"] == 1 else
                                    "len" if c["ctl"]["num_epochs"] >= len(c["mets"]) else "<len"))
+        if c["klb"] and FMTS[c["fmt"]][3] and _dethrones(c):
+            chk.count("last+best: new best while the old best is older than the previous epoch (optimizer format with {epoch})")
         for key, val in sorted((c.get("drv") or {}).items()):
             chk.count("driven:%s=%s" % (key, val))
         if c.get("kind") == "nofiles":
@@ -1339,6 +1384,8 @@ def run(chk, cases=None):
     pres = coq_eval_bools(chk.workdir, IMPORTS, [spec_term(cases[i], outs[i], j) for i in todo for j in range(len(PARTS))],
                           shard=700, tag="parts")
     parts_of = {i: [PARTS[j] for j in range(len(PARTS)) if not pres[n * len(PARTS) + j]] for n, i in enumerate(todo)}
+    sq = [i for i in todo if not res[i]]      # the model misses them: at least the observable state?
+    state_of = dict(zip(sq, coq_eval_bools(chk.workdir, IMPORTS_STATE, [state_term(cases[i], outs[i]) for i in sq], tag="state")))
     for i in sbad:
         case, out = cases[i], outs[i]
         if out.get("notes") or "error" in out:
@@ -1350,7 +1397,7 @@ def run(chk, cases=None):
             continue
         parts = parts_of[i]
         for g in part_groups(parts):
-            rec = make_record(chk, case, out, res[i], g, with_model=False)
+            rec = make_record(chk, case, out, res[i], g, with_model=False, state_ok=state_of.get(i))
             e = chk.known_match(signature_fn, rec)
             if e is not None:
                 chk.report(rec, signature_fn)
@@ -1384,13 +1431,13 @@ def _still_rejected(chk, case, group):
     out = run_impl(case, chk.workdir)
     if "error" in out or out.get("notes"):
         return False
-    sp, mo = coq_eval_bools(chk.workdir, IMPORTS, [spec_term(case, out), model_term(case, out)], tag="shr")
+    sp, st = coq_eval_bools(chk.workdir, IMPORTS_STATE, [spec_term(case, out), state_term(case, out)], tag="shr")
     if sp:
         return False
     g = [q for q in failing_parts(chk, case, out) if q in group]
     if not g:
         return False
-    return chk.known_match(signature_fn, {"case": case, "impl": out, "failing_parts": g, "model_agrees": mo}) is None
+    return chk.known_match(signature_fn, {"case": case, "impl": out, "failing_parts": g, "state_agrees": st}) is None
 
 
 def _disagrees(chk, case):
